@@ -6,6 +6,26 @@ TECH = "deterministic simulation with fault injection (seeded schedules/faults, 
 
 # property -> (claimed?, level category, level text, level note, design ref)
 CLAIMED = {
+ "C02": ("exploration",
+   "Seeded cluster executions of real nodes with a drawn stabilisation time: before it arbitrary loss/duplication/delay/partitions/stalls/crashes (<20% of stake) and <20%-stake Byzantine validators, after it no loss and delays <= 100 ms. Bounded liveness is then demanded: every live correct node's finalized slot advances within every interval of B = 2*DELTA_STANDSTILL + 4*(DELTA_TIMEOUT+4*DELTA_BLOCK); in windows of correct live leaders that start >= 2 s after stabilisation with all live nodes caught up (and dissemination guaranteed), every proposed block is finalized everywhere and not skipped; in the lockstep configuration (equal stakes, constant latency) every such block gets a fast-finalization certificate. A fault-free variant runs with no relaxation.",
+   "Liveness is only demanded after stabilisation and only under the measured preconditions listed above; the fast-finalization demand is restricted to the lockstep configuration because with skewed stakes or jitter a 60% coalition can legitimately complete the two-round path first (DESIGN §7 C02). N <= 7.",
+   "DESIGN.md §7 C02"),
+ "C11": ("exploration",
+   "For all four shredders, slices with boundary-biased payload lengths are shredded and sent through a lossy, reordering, duplicating datagram schedule to a receiver that calls deshred on every arrival: success iff >=32 distinct shreds, bit-exact slice and shreds, regenerated shreds validate, untouched array on error, oversize refused at shred time. This is the thinnest fit of the technique among the claimed properties: beyond loss/reorder/duplication it is seeded input sampling.",
+   "Subsets are sampled (which 32..64 shreds, in which order), not enumerated; payload lengths are boundary-biased samples over every residue of the padding scheme.",
+   "DESIGN.md §7 C11"),
+ "C12": ("exploration",
+   "A tamperer on the path between an honest leader and a receiver (the message loop's validation path on a real BlockstoreImpl, with and without cached commitment) applies thirteen structured mutation classes; acceptance is only allowed when every bound field still equals a genuine shred's, and afterwards the genuine shreds must reconstruct the block without the correct leader being flagged. A Byzantine leader's two signed commitments for one slice must be reported in both arrival orders.",
+   "The receiver re-states the body of Alpenglow::handle_disseminator_shred in the harness (sim/src/dissem.rs); the real loop is exercised in the cluster world. Mutation operators are the coverage statement, not 'all mutations'.",
+   "DESIGN.md §7 C12"),
+ "C13": ("exploration",
+   "Block shapes (1..K slices, empty to full, optimistic-handover switches) and eight leader-signed malformations are delivered to a real BlockstoreImpl in sampled orders with duplicates: exactly one FirstShred and Block, correct hash/parent, every shred/root/proof served and verifying, leader fast path equal; malformed or equivocating blocks yield exactly one InvalidBlock and no later Block.",
+   "K <= 8 slices in quick, 40 in thorough; transactions are compared through the block hash (Merkle binding), not field by field.",
+   "DESIGN.md §7 C13"),
+ "C16": ("exploration",
+   "2..40 independently constructed Rotor (both constructors) / Turbine / Trivial instances on a loss-free recording network with arbitrary delays: every shred a leader sends must reach every other validator, exactly once under Turbine/Trivial and through at most one relay broadcast under Rotor, for drawn validator counts, stakes, fanouts, construction times and call orders.",
+   "Cache eviction (2^14 / 2^16 entries) is not reached in bounded runs.",
+   "DESIGN.md §7 C16"),
  "C03": ("exploration",
    "Seeded search over arrival orders of validly signed votes (all five kinds, honest-pattern and Byzantine signers, duplicates), received certificates and block registrations fed to one real PoolImpl; after every step every certificate the pool creates is checked against an independent accepted-vote table: created only when and as soon as the threshold is reached, once, with exactly the accepted matching voters as signers, and accepted by ValidatedCert::try_new. The cluster world additionally validates every certificate a correct node broadcasts.",
    "Trusts the memoisation of signature checks (same keys, same messages per process) and the harness' reverse mapping of synthetic block hashes; stake distributions are the five families of sim/src/keys.rs; 3-10 validators.",
